@@ -427,6 +427,9 @@ pub struct ParentCfg {
     pub rlimit_as: u64,
     /// no new result line for this long ⇒ kill the child, pending case = `Hang`
     pub fence_secs: u64,
+    /// fence for shards that contain a unit whose body has `"fence": "short"` (cases known to be
+    /// able to run for a time proportional to a declared size)
+    pub short_fence_secs: u64,
     /// directory for shard / result / stderr files
     pub scratch: PathBuf,
     /// arguments passed through to every child (`--seed`, `--tier`, corpus path, ...)
@@ -603,6 +606,11 @@ fn run_shard(
     }
     let total: u64 = units.iter().map(|u| u.cases()).sum();
     let t_shard = Instant::now();
+    let fence_secs = if units.iter().any(|u| u.body.get("fence").and_then(|x| x.as_str()) == Some("short")) {
+        cfg.short_fence_secs
+    } else {
+        cfg.fence_secs
+    };
     let mut reported: u64 = 0;
     let mut resume: Option<(u64, u64)> = None; // last case that must be skipped
     let mut restarts = 0u64;
@@ -656,7 +664,7 @@ fn run_shard(
                     if len != last_len {
                         last_len = len;
                         last_progress = Instant::now();
-                    } else if last_progress.elapsed() > Duration::from_secs(cfg.fence_secs) {
+                    } else if last_progress.elapsed() > Duration::from_secs(fence_secs) {
                         let _ = child.kill();
                         let _ = child.wait();
                         break ChildEnd::Fenced;
